@@ -120,6 +120,32 @@ def name_value(name):
     return val
 
 
+import re as _re
+_FLOAT_HEAD = _re.compile(r'^Units\((-?(?:\d+\.\d*(?:[eE][-+]?\d+)?|\d+[eE][-+]?\d+|inf|nan))')
+
+def canon_str(text):
+    """str(units) with the digits of a leading float coefficient replaced by '#' (the model does not print floats)"""
+    m = _FLOAT_HEAD.match(text)
+    if m:
+        return 'Units(#' + text[m.end():]
+    return text
+
+def enc_str(t):
+    return '_' if t == '' else t.replace(' ', '~')
+
+def pname_wire(name):
+    """name of a real Units object for the printing model: N | (s string) | (d (key expo) ...)"""
+    if name is None:
+        return 'N'
+    if isinstance(name, str):
+        if not all(c.isalpha() or c == ' ' for c in name):
+            raise ValueError('compound string name')
+        return ['s', enc_str(name)]
+    if not all(isinstance(k, str) and k.isalpha() and is_int(e) for k, e in name.items()):
+        raise ValueError('name outside the model')
+    return ['d'] + [[enc_str(k), int(e)] for k, e in name.items()]
+
+
 def power_of(p):
     """Python number for a power given as twice its value (or 'other')"""
     if p == 'other':
@@ -273,9 +299,9 @@ def irrational_expected(case):
             return power_kind(R.ref_of(case['a']), 1)[0] == 'real'
         if op == 'static' and case['fn'] == 'units_power':
             return power_kind(R.ref_of(case['a']), case['p'])[0] == 'real'
-        if op == 'rule' and OBJ_OPS[case['oname']]['model'] == 'sqrt':
+        if op in ('rule', 'drule') and OBJ_OPS[case['oname']]['model'] == 'sqrt':
             return power_kind(R.ref_of(case['a']), 1)[0] == 'real'
-        if op == 'rule' and OBJ_OPS[case['oname']]['model'] == 'pow' and case['p'] != 'other':
+        if op in ('rule', 'drule') and OBJ_OPS[case['oname']]['model'] == 'pow' and case['p'] != 'other':
             return power_kind(R.ref_of(case['a']), case['p'])[0] == 'real'
     except R.Inexact:
         return True
@@ -308,6 +334,20 @@ def run(case):
     info['unprintable'] = bad
     info['mutated'] = constants_changed()
     return obs, info
+
+
+def str_operand(case):
+    """the Units object to print: built by the real algebra, optionally through a static helper (name None)
+    or with its name removed"""
+    u = build(case['a'])
+    how = case.get('how', 'asis')
+    if how == 'noname':
+        u = Units(u.exponents, u.triple, None)
+    elif how == 'helper':
+        u = Units.mul_units(u, build(case.get('b')))
+    elif how == 'power':
+        u = Units.units_power(u, case['k'])
+    return u
 
 
 def _law_sides(case):
@@ -362,6 +402,26 @@ def _run(case, info):
         r = Units(tuple(case['e']), (case['n'], case['d'], case['p']))
         U.append(('result', r)); info['r'] = r
         return uobs(r)
+    if op == 'zero':
+        a = build(case['a'])
+        fn = case['fn']
+        r = a * 0 if fn == 'mul0' else a * 0.0 if fn == 'mulf0' else a / 0 if fn == 'div0' else 0 / a if fn == 'rdiv0' \
+            else Units(a.exponents, (0, 1, 0)) if fn == 'ctor0' else Units(a.exponents, (1, 0, 0))
+        info['r'] = r
+        return uobs(r)
+    if op == 'str':
+        u = str_operand(case)
+        U.append(('units', u)); info['r'] = u
+        dmg = case.get('damage')
+        if dmg is None:
+            return canon_str(str(u))
+        victim = _CONST[dmg]
+        saved = victim.name
+        try:
+            victim.name = None
+            return canon_str(str(u))
+        finally:
+            victim.name = saved
     if op == 'names':
         a, b = build(case['a']), build(case.get('b'))
         fn = case['fn']
@@ -414,6 +474,8 @@ def _run(case, info):
         return _run_rule(case, info)
     if op == 'hist':
         return _run_hist(case, info)
+    if op == 'drule':
+        return _run_drule(case, info)
     if op == 'set':
         return _run_set(case, info)
     if op == 'scale':
@@ -556,6 +618,102 @@ def _run_hist(case, info):
     return _rule_obs(case, r, info)
 
 
+DOPS = {'mul': 'mul', 'rmul': 'mul', 'imul': 'mul', 'dot': 'mul', 'cross': 'mul', 'outer': 'mul', 'element_mul': 'mul',
+        'div': 'div', 'idiv': 'div', 'element_div': 'elem_div', 'sqrt': 'sqrt', 'recip': 'recip', 'rdivnum': 'recip',
+        'norm': 'norm', 'norm_sq': 'norm_sq', 'pow': 'pow'}
+
+
+def drule_operands(case, units=True):
+    spec = OBJ_OPS[case['oname']]
+    B = (lambda sp: build(sp)) if units else (lambda sp: None)
+    da, db = case['da'], case.get('db', '-')
+    a = make(case['cls'], case['shape'], B(case['a']), [B(da)] if da != '-' else [])
+    b = None
+    if spec['arity'] == 2:
+        b = sc(case['shape'], B(case['b'])) if spec['other'] == 'scalar' else make(case['cls'], case['shape'], B(case['b']))
+        if db != '-':
+            vals = np.array(b._values_, copy=True) * 0.25
+            b.insert_deriv('d0', type(b)(vals, units=B(db)))
+    return a, b
+
+
+def _run_drule(case, info):
+    spec = OBJ_OPS[case['oname']]
+    a, b = drule_operands(case)
+    r = spec['f'](a, b, case)
+    info['r'] = r
+    try:
+        a0, b0 = drule_operands(case, units=False)
+        info['r0'] = spec['f'](a0, b0, case)
+    except Exception as e:
+        info['r0'] = e
+    main = _rule_obs(case, r, info)
+    d = r._derivs_.get('d0') if isinstance(r, Qube) else None
+    info['d'] = d
+    if d is None:
+        return [main, 'absent']
+    info['units'].append(('units of the derivative', d._units_))
+    o = uobs(d._units_)
+    return [main, 'inexact' if o == 'inexact' else ['units', o]]
+
+
+def result_ref(case):
+    """exact reference units of the result of a drule case (None = no units); raises if not exact"""
+    spec = OBJ_OPS[case['oname']]
+    ra = R.ref_of(case['a'])
+    rb = R.ref_of(case['b']) if spec['arity'] == 2 else None
+    m = spec['model']
+    if m in ('mul', 'dot', 'cross', 'outer'):
+        return ra if rb is None else rb if ra is None else R.r_mul(ra, rb)
+    if m == 'div':
+        return ra if rb is None else R.r_pow(rb, -1) if ra is None else R.r_div(ra, rb)
+    if m == 'norm':
+        return ra
+    if m == 'norm_sq':
+        return None if ra is None else R.r_mul(ra, ra)
+    if m == 'recip':
+        return None if ra is None else R.r_pow(ra, -1)
+    if m in ('sqrt', 'pow'):
+        kind = power_kind(ra, 1 if m == 'sqrt' else case['p'])
+        if kind[0] != 'exact':
+            raise R.Inexact(case['oname'])
+        return kind[1]
+    raise KeyError(m)
+
+
+def judge_drule(case, obs, info, fail):
+    spec = OBJ_OPS[case['oname']]
+    a, b, da, db, t = case['a'], case.get('b'), case['da'], case.get('db', '-'), case['t']
+    # only dimensionally consistent set-ups are specified: every derivative present has units operand/T
+    consistent = not (a is None or (da != '-' and da != ['/', a, t]))
+    if spec['arity'] == 2 and ((b is None and db != '-') or (db != '-' and db != ['/', b, t])):
+        consistent = False
+    if not consistent and isinstance(info.get('exc'), ValueError):
+        return None          # derivative terms of different dimensions cannot be added: a legitimate rejection
+    main = judge_rule(case, obs[0] if isinstance(obs, list) and len(obs) == 2 and not isinstance(obs[0], int) else obs, info, fail)
+    if main:
+        return main
+    if info.get('exc') is not None or not consistent:
+        return None
+    if da == '-' and db == '-':
+        return None
+    if case.get('p') in (0, 'other'):
+        return None
+    try:
+        res = result_ref(case)
+    except (R.Inexact, ValueError):
+        return None
+    d = info.get('d')
+    if d is None:
+        return fail('derivative-lost', '%s: the result has no derivative although an operand has one' % case['oname'])
+    want = R.r_div(res if res is not None else R.UNITLESS, R.ref_of(t))
+    bad = units_match_ref(d._units_, want)
+    if bad:
+        return fail('derivative-units', '%s: units of the result\'s derivative: %s (result units / denominator units expected)'
+                    % (case['oname'], bad))
+    return None
+
+
 def _values_of(obj):
     return [np.array(obj._values_, copy=True)] + [np.array(d._values_, copy=True) for _, d in sorted(obj._derivs_.items())]
 
@@ -665,6 +823,14 @@ def request(case):
             return ['c12', 'rdivnat', case['k'], w(case['a'])]
         if op == 'mk':
             return ['c12', 'mk'] + case['e'] + [case['n'], case['d'], case['p']]
+        if op == 'str':
+            u = str_operand(case)
+            o = uobs(u)
+            if not isinstance(o, list):
+                return None
+            dmg = case.get('damage')
+            nm = None if (dmg is not None and u is _CONST[dmg]) else u.name     # the damaged constant itself
+            return ['c12', 'str', o, pname_wire(nm), '-' if dmg is None else enc_str(_CONST[dmg].name)]
         if op == 'names':
             a, b = build(case['a']), build(case.get('b'))
             return ['c12', 'names', case['fn'], name_wire(a.name), 'N' if b is None else name_wire(b.name), case.get('k', 0)]
@@ -682,6 +848,18 @@ def request(case):
             return ['c12', 'test', case['fn'], w(case.get('a')), w(case.get('b'))]
         if op == 'convert':
             return ['c12', 'convert', w(case['a']), w(case['b'])]
+        if op == 'drule':
+            if irrational_expected(case):
+                return None
+            spec = OBJ_OPS[case['oname']]
+            a = w(case['a']); b = w(case['b']) if spec['arity'] == 2 else 'N'
+            da = '-' if case['da'] == '-' else w(case['da'])
+            db = '-' if case.get('db', '-') == '-' else w(case['db'])
+            # (Scalar * Vector dispatches to Vector._mul_by_scalar: the vector's derivative term comes first,
+            #  so the operands are NOT swapped for the derivative rule; the product of the units commutes)
+            opx = ['pow', case['p'], not case['shape']] if spec['model'] == 'pow' else [spec['model']]
+            return ['c12', 'drule', a, b, da, db, DOPS[case['oname']], case['p'] if spec['model'] == 'pow' else 0,
+                    not case['shape']] + opx
         if op in ('rule', 'hist'):
             spec = OBJ_OPS[case['oname']]
             a = w(case['a'])
@@ -689,11 +867,14 @@ def request(case):
             if spec.get('swap'):
                 a, b = b, a
             opx = ['pow', case['p'], not case['shape']] if spec['model'] == 'pow' else [spec['model']]
-            if op == 'hist' and case['change'] in ('set_units', 'set_none') and not spec.get('swap'):
-                # run the history on the model's cached-view object: touches, set_units (which clears the cache),
-                # then the operation on the object or its .wod
+            CH = {'set_units': 'set', 'set_none': 'set', 'without': 'without', 'into': 'into', 'from': 'from',
+                  'clone_set': 'clone_set', 'copy_set': 'clone_set'}
+            if op == 'hist' and case['change'] in CH and not spec.get('swap'):
+                # run the history on the model's cached-view object (CObj.run): touches, the unit-changing step(s),
+                # then the operation on the object reached or on its .wod
                 n = sum(1 for t in case['touch'] if t in ('wod', 'product', 'norm'))
-                return ['c12', 'hist', n, case['nderivs'], w(case['cur']), a, case['target'], b] + opx
+                new = w(case['new']) if case['change'] in ('set_units', 'clone_set', 'copy_set') else 'N'
+                return ['c12', 'hist', n, case['nderivs'], w(case['cur']), CH[case['change']], new, case['target'], b] + opx
             return ['c12', 'rule', a, b] + opx
         if op == 'set':
             if case['how'] in ('ctor', 'set_units', 'set_units_str'):
@@ -714,6 +895,10 @@ def kind_of(case):
         return 'law:' + case['law']
     if op == 'names':
         return 'names:' + case['fn']
+    if op == 'zero':
+        return 'zero:' + case['fn']
+    if op == 'str':
+        return 'str:' + case.get('how', 'asis') + (':damaged' if case.get('damage') else '')
     if op == 'static':
         return 'static:' + case['fn']
     if op == 'test':
@@ -722,6 +907,8 @@ def kind_of(case):
         return 'rule:%s:%s' % (case['oname'], case['cls'])
     if op == 'hist':
         return 'hist:%s:%s:%s' % (case['change'], case['target'], case['cls'])
+    if op == 'drule':
+        return 'drule:%s:%s' % (case['oname'], case['cls'])
     if op == 'set':
         return 'set:%s:%s' % (case['how'], case['cls'])
     if op == 'scale':
@@ -732,7 +919,7 @@ def kind_of(case):
 # ------------------------------------------------------------------ the direct oracle
 def _sig(case, what):
     op = case['op']
-    sub = case.get('law') or (case.get('fn') if isinstance(case.get('fn'), str) else None) or case.get('oname') or case.get('how') or case.get('dir') or ''
+    sub = case.get('law') or (case.get('fn') if isinstance(case.get('fn'), str) else None) or (case.get('how') if case['op'] == 'str' else None) or case.get('oname') or case.get('how') or case.get('dir') or ''
     return '%s:%s:%s' % (op, sub, what)
 
 
@@ -827,6 +1014,20 @@ def judge(case, obs, info):
             return fail('eq', 'result is not equal to itself')
         return None
 
+    if op == 'zero':
+        # a unit with a zero numerator or denominator cannot exist (no inverse factor): a clean rejection is demanded
+        if not isinstance(exc, ValueError):
+            return fail('zero-coefficient', '%s on %s: expected ValueError, got %s'
+                        % (case['fn'], case['a'], ('%s: %s' % (type(exc).__name__, exc)) if exc is not None else C.sx(obs)))
+        return None
+    if op == 'str':
+        if case.get('damage') is not None:
+            return None                 # deliberately damaged registry: only the model's failure path is tied
+        if exc is not None:
+            return fail('raised', 'str(units) raised %s: %s' % (type(exc).__name__, exc))
+        if not (isinstance(obs, str) and obs.startswith('Units(') and obs.endswith(')')):
+            return fail('malformed', 'str(units) = %r' % (obs,))
+        return None
     if op == 'names':
         if exc is not None:
             return fail('raised', 'names %s raised %s: %s' % (case['fn'], type(exc).__name__, exc))
@@ -946,6 +1147,8 @@ def judge(case, obs, info):
 
     if op == 'rule':
         return judge_rule(case, obs, info, fail)
+    if op == 'drule':
+        return judge_drule(case, obs, info, fail)
     if op == 'hist':
         # the object reached by the history must carry exactly the units the history gave it ...
         if 'target_units' in info:
@@ -1053,10 +1256,29 @@ def judge_rule(case, obs, info, fail):
         return want_units(None if ra is None else R.r_pow(ra, -1))
     if model in ('sqrt', 'pow'):
         p = 1 if model == 'sqrt' else case['p']
+        pure = ra is not None and all(x == 0 for x in ra[0])
         if p == 'other':
-            return None                                  # not specified
+            if ra is None:
+                return want_units(None)
+            if not pure:
+                return None                              # not specified (the code rejects it)
+            # a pure number can be raised to any power, whatever the shape of the object
+            if exc is not None:
+                return fail('unitless-power', '%s: a pure number (units %s) ** 0.7 raised %s: %s'
+                            % (oname, case['a'], type(exc).__name__, exc))
+            if r._units_ is not None and any(x != 0 for x in r._units_.exponents):
+                return fail('unitless-power', '%s: a pure number ** 0.7 came back with exponents %s'
+                            % (oname, r._units_.exponents))
+            return values_untouched()
         if ra is None:
             return want_units(None)
+        if pure:
+            pk = power_kind(ra, p)
+            res = want_units(pk[1], also_none=(pk[1][1] == 1 and pk[1][2] == 0)) if pk[0] == 'exact' else None
+            if res and res[0].endswith(('wrong-units', 'raised')):
+                return fail('unitless-power', res[1])
+            if power_kind(ra, p)[0] == 'exact':
+                return res
         if p % 2 == 0:
             kind = ('exact', R.r_pow(ra, p // 2))
         else:
@@ -1083,7 +1305,13 @@ def judge_rule(case, obs, info, fail):
         if exc is not None:
             return fail('raised', '%s raised %s: %s' % (oname, type(exc).__name__, exc))
         return values_untouched()
-    return None        # log: not specified
+    if model == 'log':
+        # KF-C12-1: log needs a pure number (its inverse exp enforces exactly that); an angle in radians is one
+        ok = ra is None or ra[0] in ((0, 0, 0), (0, 0, 1))
+        if not ok and not isinstance(exc, ValueError):
+            return fail('no-rejection', 'log of a quantity in %s was accepted: %s' % (ra[0], C.sx(obs)))
+        return None
+    return None
 
 
 def _bitwise_equal(xs, ys):
@@ -1126,6 +1354,14 @@ def judge_set(case, obs, info, fail):
                     % (how, [x.tolist() for x in info['before']], [x.tolist() for x in info['after']]))
     if how == 'without' and not _bitwise_equal(info['before'], info['before_res']):
         return fail('operand-changed', 'without_units changed its operand')
+    if how == 'without':
+        kept = [k for k, d in res._derivs_.items() if d._units_ is not None]
+        if kept:
+            return fail('derivative-units-kept', 'without_units(): the result has no units but its derivatives %s still have '
+                        '(%s)' % (kept, res._derivs_[kept[0]]._units_))
+        if any(d._units_ is None for d, spec in zip([info['obj']._derivs_[k] for k in sorted(info['obj']._derivs_)],
+                                                    case.get('derivs', [])) if spec is not None):
+            return fail('operand-changed', 'without_units() stripped the units of the derivatives of its operand')
     return None
 
 
